@@ -545,7 +545,7 @@ def ret_range(P, key, max_states=60000, trips=None):
     return (lo, hi)
 
 
-def analyse_fn(P, key, inline=False, opaque=None, max_states=30000):
+def analyse_fn(P, key, inline=False, opaque=None, max_states=30000, init=None):
     """{(fn, block): 'safe' | 'unknown'} for the asserts and panic calls of function `key`, from a local (parameters opaque) analysis.
     A site is 'safe' only if on EVERY enumerated path reaching it the failing outcome is infeasible."""
     body = P.body(key)
@@ -565,6 +565,8 @@ def analyse_fn(P, key, inline=False, opaque=None, max_states=30000):
     for lf in rets + loops + panics:
         R = Ranges(P, body)
         R.acc = acc
+        if init:
+            R.refine.update(init)        # ranges of parameter parts established by the (only) calling context
         dead = False
         events = [tr for tr in lf.trace if tr[0] == "site"]
         for t, v in lf.cond:
